@@ -260,8 +260,9 @@ func permutations(n int) [][]int {
 	return res
 }
 
-// subscription patterns over two topics, including both listing orders of {0,1}
-var subs2 = [][]int{{}, {0}, {1}, {0, 1}, {1, 0}}
+// subscription listings over two topics: both listing orders of {0,1} and lists that repeat a topic (the list is user
+// input, ConsumerGroupConfig.Topics is not de-duplicated)
+var subs2 = [][]int{{}, {0}, {1}, {0, 1}, {1, 0}, {0, 0}, {1, 0, 1}}
 
 // mkParts lists counts[t] partitions of each topic t, interleaved at random, ids in a random order
 // (so that "listed order" and "id order" differ), leader racks uniform in [0, racks).
@@ -309,7 +310,7 @@ func main() {
 			}
 			for p0 := 0; p0 <= 6; p0++ {
 				for p1 := 0; p0+p1 <= 6; p1++ {
-					if n == 4 && !thorough && r.Intn(2) != 0 {
+					if n == 4 && !thorough && r.Intn(6) != 0 {
 						continue
 					}
 					caseNo++
@@ -385,6 +386,9 @@ func main() {
 					ts = append(ts, t)
 				}
 			}
+			if len(ts) > 0 && r.Intn(5) == 0 { // a repeated topic
+				ts = append(ts, ts[r.Intn(len(ts))])
+			}
 			ms = append(ms, member{id, r.Intn(racks), ts})
 		}
 		counts := make([]int, nt)
@@ -411,9 +415,8 @@ func main() {
 		glue("grack", ms, ps, glueRepeat)
 	}
 
-	// ---- 3. outside the hypotheses (duplicate topics in a member's list, equal member ids): the property
-	// does not quantify over these; they only check that the model still follows the code (oracle: holds=1)
-	{ // the two witnesses of Props/C14.lean §5
+	// the two regression witnesses of finding C14-D30 (Props/C14.lean §5)
+	{
 		ms := []member{{"m1", 0, []int{0, 0}}, {"m2", 0, []int{0}}}
 		var ps []part
 		for i := 0; i < 6; i++ {
@@ -422,18 +425,17 @@ func main() {
 		run("range", ms, ps, 1)
 		run("rack", []member{{"m7", 0, []int{0, 0}}}, []part{{0, 0, 1}, {0, 1, 1}}, rackRepeat)
 	}
+
+	// ---- 3. outside the hypothesis (equal member ids): the property speaks of a set of members; these cases only
+	// check that the model still follows the code (oracle: holds=1)
 	for k := 0; k < 300; k++ {
 		n := 2 + r.Intn(3)
 		ids := pickIDs(n, k)
 		ms := make([]member, n)
 		for i := range ms {
-			ms[i] = member{ids[i], 0, subs2[1+r.Intn(4)]}
+			ms[i] = member{ids[i], 0, subs2[1+r.Intn(6)]}
 		}
-		if k%2 == 0 {
-			ms[0].topics = append(append([]int{}, ms[0].topics...), ms[0].topics[0])
-		} else {
-			ms[1].id = ms[0].id
-		}
+		ms[1].id = ms[0].id
 		racks := 1 + r.Intn(3)
 		for i := range ms {
 			ms[i].zone = r.Intn(racks)
